@@ -123,6 +123,9 @@ func c19RunJust[N uint32 | uint64](kv map[string]string, body string) string {
 			case "wn":
 				signed.TargetNumber++
 			}
+			if strings.HasPrefix(kind, "cn") { // the signer's honest signature over (this hash, number X)
+				signed.TargetNumber = N(c19U(kind[2:]))
+			}
 			payload := primitives.NewLocalizedPayload(primitives.RoundNumber(sr), primitives.SetID(ss), grandpa.NewMessage(signed))
 			sig := signer.Sign(payload)
 			if kind == "bad" {
@@ -163,16 +166,36 @@ func c19RunJust[N uint32 | uint64](kv map[string]string, body string) string {
 	if err != nil {
 		return res1 + "/err-decode"
 	}
-	return res1 + "/" + c19Err(dec.Verify(setID, auths))
+	res2 := c19Err(dec.Verify(setID, auths))
+	if kv["fz"] == "1" { // forged-number lines: only the verdict (see Driver/C19.lean `coarse`)
+		res1, res2 = c19Coarse(res1), c19Coarse(res2)
+	}
+	return res1 + "/" + res2
+}
+
+func c19Coarse(x string) string {
+	switch x {
+	case "ok", "novoters", "err-auth":
+		return x
+	}
+	return "rej"
 }
 
 func c19RunJ(line string) string {
 	hdr, body, _ := strings.Cut(line, "|")
 	f := strings.Fields(hdr)
-	if len(f) == 0 || f[0] != "just" {
+	if len(f) == 0 || (f[0] != "just" && f[0] != "justl") {
 		return "bad-op"
 	}
 	kv := c19KV(hdr)
+	out := c19RunJ2(kv, body)
+	if f[0] == "justl" && out != "panic" && out != "timeout" && out != "bad-op" {
+		return "returns"
+	}
+	return out
+}
+
+func c19RunJ2(kv map[string]string, body string) string {
 	return vhWithTimeout(30000, func() string {
 		switch kv["w"] {
 		case "32":
